@@ -427,6 +427,73 @@ def _task_fresh(task):
     return _task(task)
 
 
+def reconf_pass(rep, variant, cnt):
+    """objectstore.umask across a re-initialisation IN THE SAME PROCESS: the library is initialised with configuration 1, used, finalised, the configuration file
+    is rewritten (configuration 2: another umask, or no umask line at all = the owner-only default) and the library is initialised again.  Everything the second
+    instance creates (a new token with its directory and files, new object and lock files in the old token) must respect configuration 2's umask."""
+    import shutil, stat
+    from p11mc import p11 as P
+    pairs = [("0007", None), ("0027", None), ("0007", "0077"), ("0027", "0077"), ("0007", "0027"), (None, "0077"), ("0077", None)]
+    for um1, um2 in pairs:
+        root = P.scratch_root()
+        try:
+            sd = os.path.join(root, "d0")
+
+            def conf(um):
+                P.write_conf(sd, umask=um or "0077")
+                if um is None:
+                    path = os.path.join(sd, "softhsm2.conf")
+                    txt = "".join(l for l in open(path) if not l.startswith("objectstore.umask"))
+                    open(path, "w").write(txt)
+            conf(um1)
+            sh = P.Shell(variant, sd)
+            try:
+                p = P.P11(sh)
+                tag = "%s-then-%s" % (um1 or "absent", um2 or "absent")
+
+                def use(label, first):
+                    W.ok(p.Initialize(), "init")
+                    sm = W.slot_map(p)
+                    W.init_token(p, sm["free"], W.SO_A, label, W.USER_A)
+                    sm = W.slot_map(p)
+                    for lab in ([label] if first else ["R1", label]):
+                        s = W.ok(p.OpenSession(sm[lab]), "open")["h"]
+                        W.ok(p.Login(s, C.CKU_USER, W.USER_A), "login")
+                        W.ok(p.CreateObject(s, F.template("aes128", token=True, private=True, label=b"reconf-" + label.encode())), "create")
+                        W.ok(p.GenerateKey(s, mech(C.CKM_AES_KEY_GEN), [(C.CKA_TOKEN, True), (C.CKA_PRIVATE, True), (C.CKA_VALUE_LEN, 16), (C.CKA_LABEL, b"gen-" + label.encode())]), "generate")
+                        p.Logout(s); p.CloseSession(s)
+                    W.ok(p.Finalize(), "final")
+
+                def listing():
+                    out = {}
+                    for dp, dn, fn in os.walk(os.path.join(sd, "tokens")):
+                        for name in dn + fn:
+                            q = os.path.join(dp, name)
+                            out[os.path.relpath(q, sd)] = (stat.S_IMODE(os.lstat(q).st_mode), name in dn)
+                    return out
+                use("R1", True)
+                before = listing()
+                conf(um2)
+                use("R2", False)
+                after = listing()
+                eff = int(um2 or "0077", 8)
+                new = {k: v for k, v in after.items() if k not in before}
+                if len(new) < 5:
+                    rep.harness_errors.append("reconfiguration pass %s: only %d new paths" % (tag, len(new)))
+                for k, (mode, isdir) in sorted(new.items()):
+                    cnt["reconf_paths_checked"] = cnt.get("reconf_paths_checked", 0) + 1
+                    if mode & eff:
+                        rep.add_violation({"signature": "C06|reconfigured-umask|%s|permission-bits-outside-umask|%s" % (tag, "dir" if isdir else ("lock" if k.endswith(".lock") else "file")),
+                                           "detail": {"path": k, "mode": oct(mode), "umask_now": um2 or "default 0077", "umask_of_first_instance": um1 or "default 0077"},
+                                           "history": [], "action": None, "variant": variant, "store": "file", "replay_module": "c06_atrest", "reconf": [um1, um2]})
+                        break
+                cnt["reconf_pairs"] = cnt.get("reconf_pairs", 0) + 1
+            finally:
+                sh.close()
+        finally:
+            shutil.rmtree(root, ignore_errors=True)
+
+
 def main(tier):
     rep = Report("C06", tier, "model_checking")
     quick = tier == "quick"
@@ -469,6 +536,7 @@ def main(tier):
                     rep.harness_errors.append("violation %s did not reproduce" % sig)
         finally:
             ex.close()
+    reconf_pass(rep, variant, cnt)
     if not cnt.get("attribute_values_compared") or cnt.get("scenarios", 0) < 10:
         rep.harness_errors.append("vacuous: %r" % cnt)
     rep.coverage = {"states": cnt.get("scenarios", 0), "transitions": ntasks, "traces_validated_against_impl": cnt.get("scenarios", 0),
@@ -486,6 +554,17 @@ def replay(rec):
     sys.path.insert(0, P.VERIF + "/tools")
     import build_sut
     build_sut.build(rec["variant"]); build_sut.build_ref()
+    if rec.get("reconf") is not None:
+        class _R:
+            def __init__(self): self.v, self.harness_errors = [], []
+            def add_violation(self, x): self.v.append(x["signature"])
+        r_ = _R()
+        reconf_pass(r_, rec["variant"], {})
+        print("recorded:", rec["signature"], "\nobserved:", r_.v)
+        if rec["signature"] in r_.v:
+            print("VIOLATION property=C06 replay=%s" % sys.argv[1])
+            return 1
+        return 0
     check = C06(umask=rec.get("umask", "0077"))
     root = P.scratch_root()
     try:
